@@ -6,18 +6,18 @@ WT=$1; SD=$2; PKG=$3; DEMO=${4:-demo_test.go}; shift 4 || true
 EXTRA="$@"
 export GOFLAGS=-mod=mod GOPROXY=off GOSUMDB=off GOTOOLCHAIN=local
 cd $WT || exit 2
-git checkout -q -- . ; rm -f $PKG/zz_seed_demo_test.go
+git checkout -q -- . ; rm -f $PKG/zz_seed_*_test.go
 NEWDIR=0; [ -d $PKG ] || { mkdir -p $PKG; NEWDIR=1; }
 BASEPKG=./$PKG/; [ $NEWDIR = 1 ] && BASEPKG=""
-NAMES=$(grep -ohE '^func (Test[A-Za-z0-9_]+)' $SD/$DEMO | awk '{print $2}' | paste -sd'|')
+NAMES=$(grep -ohE '^func (Test[A-Za-z0-9_]+)' $SD/*_test.go | awk '{print $2}' | paste -sd'|')
 [ -n "$NAMES" ] || NAMES='Seed|Demo|seed|demo'
 run() { timeout 1200 go test -vet=off -count=1 -p 4 "$@" 2>&1 | tail -5; return ${PIPESTATUS[0]}; }
 echo "== existing tests, clean tree"; run $BASEPKG $EXTRA; R0=$?
-cp $SD/$DEMO $PKG/zz_seed_demo_test.go
+for f in $SD/*_test.go; do cp $f $PKG/zz_seed_$(basename $f); done
 echo "== demo on clean tree (expect pass)"; run ./$PKG/ -run "^($NAMES)\$"; R1=$?
 git apply $SD/patch.diff || { echo "PATCH DOES NOT APPLY"; exit 3; }
 echo "== demo with patch (expect FAIL)"; run ./$PKG/ -run "^($NAMES)\$"; R2=$?
-rm -f $PKG/zz_seed_demo_test.go
+rm -f $PKG/zz_seed_*_test.go
 echo "== existing tests with patch (expect pass)"; run $BASEPKG $EXTRA; R3=$?
 git checkout -q -- .; [ $NEWDIR = 1 ] && rm -rf $PKG
 echo "RESULT clean_tests=$R0 demo_clean=$R1 demo_patched=$R2 tests_patched=$R3"
